@@ -18,7 +18,14 @@
     The child is abstract ([child]): spawned.main returned a RunResult built from (ret, exc) /
     spawned.main raised (the exception travels as data) / nothing came back because the process
     died -- with ANY exit code (negative: a signal; positive: os._exit(n); zero) and whether or
-    not that exit code is a key of the module-level dict `_exitcode_to_name`. *)
+    not that exit code is a key of the module-level dict `_exitcode_to_name`.
+
+    CANCELLATION.  "An await raises" covers an exception out of the awaited thing AND a
+    CancelledError delivered to the run task while it is suspended there.  For an awaited HOOK the
+    two differ in the data: apluggy gathers the implementations as tasks, so a cancellation that
+    arrives before they had their first step means NO implementation ran (DESIGN 4.2 "hook
+    window"), whereas a raising user plugin leaves the built-in implementations run.  [rw_ran]
+    says which: the implementations of a hook call whose await raised had run / had not. *)
 From Coq Require Import List String ZArith Bool Arith Lia.
 From NL Require Import Life.RecordSyntax Life.RecordInterp Gen.RunRecord.
 From NL Require Life.FailStart Life.Model.
@@ -41,10 +48,11 @@ Record run_world := mkRun {
   rw_look : bool;                (* rw_code is a key of _exitcode_to_name *)
   rw_no : Z;                     (* the run number composed for this run *)
   rw_script : option string;     (* the statement when it is a str; None: a path, a code object, a callable *)
-  rw_prev : val                  (* Context.exited_process left by whatever happened before *)
+  rw_prev : val;                 (* Context.exited_process left by whatever happened before *)
+  rw_ran : bool                  (* a hook call whose await raised: its implementations had run *)
 }.
 
-Definition W0 : world := mkWorld VNone false.
+Definition W0 : world := mkWorld VNone false true.
 Definition cfg0 : cfg := mkCfg [] [] [].
 
 (** the RunResult as built in the child by the same class *)
@@ -63,12 +71,17 @@ Definition task_result (ch : child) : res val :=
   | ChDied => Ok (VTuple [VNone; VNone])
   end.
 
-Definition handle_of (task : val) (code : Z) : val :=
-  VObj "RunningProcess" [("process", VObj "Process" [("exitcode", VInt code); ("pid", VInt 4242)]);
-                         ("_task", task); ("process_created_at", VOpaque 0)].
+Definition process_of (code : Z) : val := VObj "Process" [("exitcode", VInt code); ("pid", VInt 4242)].
+
+(** run_in_process: `RunningProcess[_T](process=process, task=task)` (pinned by translate/run_skeleton.py),
+    built by the translated __init__ *)
+Definition handle_of (task : val) (code : Z) : res val :=
+  p <- eval prog W0 FUEL (mkCfg [("p", process_of code); ("t", task)] [] [])
+         (ENew "RunningProcess" [("process", EName "p"); ("task", EName "t")]) ;;
+  Ok (fst p).
 
 Definition world_of (w : run_world) : res world :=
-  t <- task_result (rw_child w) ;; Ok (mkWorld (handle_of t (rw_code w)) (rw_look w)).
+  t <- task_result (rw_child w) ;; h <- handle_of t (rw_code w) ;; Ok (mkWorld h (rw_look w) true).
 
 Definition statement_of (w : run_world) : val :=
   match rw_script w with Some s => VStr s | None => VOpaque 1 end.
@@ -152,8 +165,9 @@ Definition stmts_at (e : FS.ev) : list stmt :=
       end
   end.
 
-Definition step_ev (W : world) (d : dstate) (e : FS.ev) : dstate :=
-  match e with FS.Ev a _ => run_stmts W d a (stmts_at e) end.
+(** the hook implementations run unless the await raised and [ran] says they had not *)
+Definition step_ev (W : world) (ran : bool) (d : dstate) (e : FS.ev) : dstate :=
+  match e with FS.Ev a ok => run_stmts (mkWorld (w_handle W) (w_look W) (ok || ran)) d a (stmts_at e) end.
 
 (** the plugin instances as constructed at registration *)
 Definition plugins0 : res (list (string * val)) :=
@@ -182,7 +196,7 @@ Definition init_run (w : run_world) : res dstate :=
 Definition data_run (w : run_world) (t : list FS.ev) : res dstate :=
   W <- world_of w ;;
   d0 <- init_run w ;;
-  Ok (fold_left (step_ev W) t d0).
+  Ok (fold_left (step_ev W (rw_ran w)) t d0).
 
 (** ---- afterwards: Nextline.result() / Nextline.format_exception() *)
 Definition api (d : dstate) (m : string) : res val :=
@@ -191,10 +205,20 @@ Definition api (d : dstate) (m : string) : res val :=
   Ok (fst (fst r)).
 
 (** ---- the specification, a function of the world and of the history alone *)
-Definition run_info (w : run_world) (state : string) (result exception : val) : string * val :=
+Definition run_info (w : run_world) (state : string) (result exception started ended : val) : string * val :=
   ("run_info", VObj "RunInfo" [("run_no", VInt (rw_no w)); ("state", VStr state);
                                ("script", match rw_script w with Some s => VStr s | None => VNone end);
-                               ("result", result); ("exception", exception)]).
+                               ("result", result); ("exception", exception);
+                               ("started_at", started); ("ended_at", ended)]).
+
+Definition rec_initialized (w : run_world) := run_info w "initialized" VNone VNone VNone VNone.
+Definition rec_running (w : run_world) := run_info w "running" VNone VNone (VTime false) VNone.
+Definition rec_finished (w : run_world) (result exception : val) :=
+  run_info w "finished" result exception (VTime false) (VTime false).
+
+(** the implementations of the hook awaited at [a] ran: the await returned, or it raised after they had run *)
+Definition hook_ran (ran : bool) (a : CS.act) (t : list FS.ev) : bool :=
+  if ran then FS.called a t else FS.returned a t.
 
 (** the outcome of the run as the child produced it; nothing when no result came back *)
 Definition spec_result (ch : child) : val :=            (* the formatted result *)
@@ -205,9 +229,9 @@ Definition spec_value (ch : child) : val :=             (* the value result() re
   match ch with ChReturned ret _ => ret | _ => VNone end.
 
 Definition expected_pubs (w : run_world) (t : list FS.ev) : list (string * val) :=
-  [run_info w "initialized" VNone VNone]
-  ++ (if FS.called CS.StartRunHook t then [run_info w "running" VNone VNone] else [])
-  ++ (if FS.called CS.EndRunHook t then [run_info w "finished" (spec_result (rw_child w)) (spec_exception (rw_child w))] else []).
+  [rec_initialized w]
+  ++ (if hook_ran (rw_ran w) CS.StartRunHook t then [rec_running w] else [])
+  ++ (if hook_ran (rw_ran w) CS.EndRunHook t then [rec_finished w (spec_result (rw_child w)) (spec_exception (rw_child w))] else []).
 
 (** what result() / format_exception() report after the run task has ended (the session was entered) *)
 Definition expected_api (w : run_world) (t : list FS.ev) : val * val :=
@@ -245,13 +269,13 @@ Ltac explode_traces :=
   replace all_traces with l by (vm_compute; reflexivity).
 
 (* the exit code: zero (then the dict is not consulted: [look] stays symbolic), positive, negative *)
-Ltac split_rest code look script :=
-  destruct script as [s|]; (destruct code as [|p|p]; [ | destruct look | destruct look ]).
+Ltac split_rest code look script ran :=
+  destruct ran; destruct script as [s|]; (destruct code as [|p|p]; [ | destruct look | destruct look ]).
 
 Ltac one_trace :=
   vm_compute; refine (conj eq_refl (conj eq_refl _)); first [ exact I | exact (conj eq_refl eq_refl) ].
 
-Ltac all_traces_good code look script :=
+Ltac all_traces_good code look script ran :=
   apply forall_traces; explode_traces;
-  split_rest code look script; repeat (apply Forall_cons; [one_trace | ]); apply Forall_nil.
+  split_rest code look script ran; repeat (apply Forall_cons; [one_trace | ]); apply Forall_nil.
 
